@@ -38,13 +38,14 @@ def observe(obj):
     return "plain", "N"
 
 
-def build(r, n, active_name):
+def build(r, n, active_name, layout=None):
     from spatialpandas import GeoDataFrame
     from .c01 import random_family
     lines = random_family("line", r, n, 8)
     polys = [[[x, y, x + 3, y, x + 3, y + 3, x, y + 3, x, y]] for x, y in [(r.randint(-4, 6), r.randint(-4, 6)) for _ in range(n)]]
     pts = [[r.randint(-2, 9), r.randint(-2, 9)] for _ in range(n)]
-    names = {"control": ["ln", "geometry", "pg"], "plain": ["ln", "pt", "pg"]}["control" if active_name == "geometry" else "plain"]
+    # layout "control": one column is literally named 'geometry' (active or, with another active column, a bystander)
+    names = {"control": ["ln", "geometry", "pg"], "plain": ["ln", "pt", "pg"]}[layout or ("control" if active_name == "geometry" else "plain")]
     data = {"v": list(range(n)), names[0]: geo.make_array("line", lines, "float64"), "w": [f"s{i}" for i in range(n)],
             names[1]: geo.make_array("point", pts, "float64"), names[2]: geo.make_array("polygon", polys, "float64")}
     df = GeoDataFrame(data, index=[f"i{j}" for j in range(n)])
@@ -77,11 +78,11 @@ def spatial_ops_use_active(chk, df, active, rep, r):
     return True
 
 
-def pandas_sequence(chk, r, active_name, length, tmp):
+def pandas_sequence(chk, r, active_name, length, tmp, layout=None):
     import dask.dataframe as dd
     from spatialpandas.io import read_parquet, read_parquet_dask, to_parquet
     n = r.randint(4, 9)
-    df, cols = build(r, n, active_name)
+    df, cols = build(r, n, active_name, layout)
     geomnames = [c for c, g in cols if g]
     df = df.set_geometry(active_name)
     ops, hist = [], []
@@ -252,6 +253,34 @@ def dask_level(chk, r, tmp):
             if got != want:
                 chk.violation(f"active/dask-build_sindex-then-cx-differs/{what}", dict(rep, got=got, expected=want))
             chk.count("dask-build_sindex:" + what)
+        # two live Dask frames over the same data that differ only in the active column
+        d_pt = dd.from_pandas(df.set_geometry("pt"), npartitions=3)
+        d_pg = dd.from_pandas(df.set_geometry("pg"), npartitions=3)
+        for which, fr, want_act in (("first", d_pt, "pt"), ("second", d_pg, "pg")):
+            per = list(fr.map_partitions(lambda d: pd.Series([getattr(d, "_geometry", None)]), meta=pd.Series([], dtype=object)).compute())
+            if fr.geometry.name != want_act or any(p != want_act for p in per) or observe(fr.compute()) != ("geo", want_act):
+                chk.violation("active/dask-frames-differing-only-in-the-active-column-confused",
+                              dict(rep, frame=which, expected=want_act, description=fr.geometry.name, partitions=per, computed=observe(fr.compute())))
+        chk.count("dask-twin-active")
+        # Dask operations that move rows between partitions (sorting, re-indexing, shuffling): still geo partitions with the same
+        # active column, spatial operations still work and answer from it
+        perm = list(range(len(df))); r.shuffle(perm)
+        dfp = df.assign(v=perm).set_geometry("pt")
+        box = (0, 0, 6, 6)
+        want = sorted(dfp.index[dfp["pt"].array.intersects_bounds(box)])
+        for opname, op in (("sort_values", lambda d: d.sort_values("v", ascending=False)), ("set_index", lambda d: d.set_index("w")),
+                           ("shuffle", lambda d: d.shuffle("v"))):
+            try:
+                res = op(dd.from_pandas(dfp, npartitions=3))
+                per = [(type(p_).__name__, getattr(p_, "_geometry", None)) for p_ in dask.compute(*res.to_delayed(), scheduler="synchronous")]
+                comp = res.compute()
+                got = sorted(res.cx[box[0]:box[2], box[1]:box[3]].compute().index)
+                want_ = sorted(dfp["w"][dfp["pt"].array.intersects_bounds(box)]) if opname == "set_index" else want
+                if any(p_ != ("GeoDataFrame", "pt") for p_ in per) or observe(comp) != ("geo", "pt") or res.geometry.name != "pt" or got != want_:
+                    chk.violation(f"active/lost-after-dask-{opname}", dict(rep, partitions=[list(p_) for p_ in per], computed=observe(comp), cx=got, expected=want_))
+            except Exception as e:  # noqa: BLE001
+                chk.violation(f"active/dask-{opname}-then-spatial-op-raises-{common.err_kind(e)}", dict(rep, error=repr(e)[:300]))
+            chk.count("dask-moves-rows:" + opname)
         # history: a frame whose partitions are held objects (persist / from_delayed), a derived frame with another active
         # column is computed, then the original is used again
         for how in ("persist", "from_delayed", "same-compute"):
@@ -326,8 +355,8 @@ def run_cases(chk, tier):
         dask_level(chk, r, tmp)
         parquet_geometry_and_bounds(chk, r, tmp)
         for k in range(40 if tier == "quick" else 500):
-            active = ("pt", "pg", "geometry", "pt")[k % 4]
-            pandas_sequence(chk, r, active, 5 if tier == "quick" else 10, tmp)
+            active, layout = (("pt", None), ("pg", None), ("geometry", None), ("pt", None), ("pg", "control"), ("ln", "control"))[k % 6]
+            pandas_sequence(chk, r, active, 5 if tier == "quick" else 10, tmp, layout)
     finally:
         shutil.rmtree(tmp, ignore_errors=True)
 
